@@ -249,6 +249,28 @@ theorem C15_n_steps_ceil (dist step : ℝ) (hd : 0 < dist) (hs : 0 < step) :
     · push_cast; linarith
     · push_cast; linarith [Int.lt_floor_add_one (dist / step)]
 
+/-- A chord not longer than one step has a single node and therefore column 0: `0 < dist ≤ step` gives `n_steps = 1`,
+`np.linspace(0,1,1) = [0]` and an empty trapezoid sum.  (The real code returns 0.0 for, e.g., a vertical chord from
+500 m depth with the default step; this is the extreme case of "within the discretisation error of the step": the
+error is the whole column `≤ 100·ρ·step`.) -/
+theorem C15_short_chord_zero (M : EarthModel) (e u : EV3) (step : ℝ)
+    (hd : 0 < chordDist M.radius e u) (hs : chordDist M.radius e u ≤ step) :
+    nSteps (chordDist M.radius e u) step = 1 ∧ M.slantCore e u step = 0 := by
+  have hstep : 0 < step := lt_of_lt_of_le hd hs
+  have hn : (nSteps (chordDist M.radius e u) step : ℤ) = 1 := by
+    rw [C15_n_steps_ceil _ _ hd hstep, Int.ceil_eq_iff]
+    constructor
+    · simp; exact div_pos hd hstep
+    · simp; rw [div_le_one hstep]; exact hs
+  have hn' : nSteps (chordDist M.radius e u) step = 1 := by exact_mod_cast hn
+  refine ⟨hn', ?_⟩
+  unfold EarthModel.slantCore
+  rw [hn']
+  by_cases h1 : chordDisc M.radius e u ≤ 0
+  · simp [h1]
+  · have h2 : ¬ chordDist M.radius e u ≤ 0 := not_le.mpr hd
+    simp [h1, h2, linspace01, EarthModel.chordSamples, trapz]
+
 /-- `np.linspace(0,1,n)` is the uniform grid `i/(n−1)` (the last element, set to 1, is `(n−1)/(n−1)`) -/
 theorem C15_linspace_uniform (n : ℕ) (hn : 2 ≤ n) :
     linspace01 n = (List.range' 0 n).map (fun (i : ℕ) => (i : ℝ) * (1 / ((n - 1 : ℕ) : ℝ))) := by
